@@ -163,7 +163,7 @@ def main():
     agg = dict(paths=0, paths_with_obligations=0, queries=0, sat=0, unsat=0, unknown=0, solver_time_s=0.0, obligations_checked=0,
                obligations_by_solver=0, obligations_on_path=0, undecided_obligations=0, undecided_flips=0, witness_validated=0, witness_mismatch=0,
                concretised=0, inexact=0, exact_terms=0, rounded_terms=0, uf_terms=0, rounded_compares=0, uf_compares=0, signed_zero=0,
-               div0_paths=0, sqrt_neg_paths=0, unsupported_paths=0, assume_rejected_runs=0, diverged_runs=0, runs=0, pending_work=0)
+               div0_paths=0, sqrt_neg_paths=0, unsupported_paths=0, assume_rejected_runs=0, diverged_runs=0, runs=0, pending_work=0, unrealised_flips=0)
     per_h, functions, locations, samples, assumptions = [], set(), set(), [], set()
     all_exh = True
     for r in results:
